@@ -19,7 +19,9 @@ RULE = ("(a) direct V3CoreLib.update_fee on random (previous close | nan, close,
         "both ways, stationary inside/outside, zero liquidity, zero pool); (b) real Actuator.run with a scripted strategy that adds / removes / "
         "collects / swaps in initialize, before_bar, on_bar and after_bar of random bars, every set_market_status and update() observed, and after every update() "
         "the market's own get_market_balance().base_uncollected/quote_uncollected compared with the exact sum of the held positions' pending "
-        "amounts mapped by is_token0_quote (buckets uncollected:<orientation>:<tokens pending>:<held>:<transferred out>:<exact|rounded>); in "
+        "amounts mapped by is_token0_quote (buckets uncollected:<orientation>:<tokens pending>:<held>:<transferred out>:<exact|rounded>); adds on an empty range "
+        "(lower = upper, or two ticks that trim_tick rounds together) must raise ZeroDivisionError and change nothing, and every position handed "
+        "to update() must have lower < upper and liquidity >= 0 (the invariant C08_runOps_preserves_range); in "
         "half of the runs the broker carries a second, never-written market registered before or after the one under test. "
         "Buckets = (stream, path class, model branch tag, outcome, dtype | phase pattern of the bar).")
 TRUSTED = ["arithmetic theorems are for the exact rational semantics; the driver reproduces the 35-digit Decimal results bit-exactly and the oracle "
@@ -270,6 +272,14 @@ def gen_run(rng, pool):
         for ph, pr in (("before", 0.1), ("on", 0.35), ("after", 0.15)):
             if rng.random() < pr:
                 plan[ph].setdefault(k, []).extend(op() for _ in range(rng.randint(1, 2)))
+    # an add on an empty range: lower = upper given directly, or two different ticks that trim_tick rounds to the same usable tick (spacing >= 10).
+    # _add_liquidity_by_tick only refuses lower > upper; the empty range must die in get_liquidity (ZeroDivisionError) before anything changes
+    # (theorems C08_empty_range_rejected / C08_std_kernel_rejects_empty_range), so that no position with lower = upper ever exists
+    if rng.random() < 0.6:
+        k = rng.randrange(n)
+        e = c + sp * rng.randint(-3, 3)
+        lo, up = rng.choice(((e, e), (e + 1, e + 2), (e + 2, e - 1), (e - sp // 2 + 1, e + sp // 2 - 1)))
+        plan[rng.choice(("before", "on", "on", "after"))].setdefault(k, []).append(("add_empty", lo, up, rng.choice(("0", "0.5")), rng.choice(("0", "500"))))
     dtype = "float64" if rng.random() < 0.7 else "int64"
     # a second market on the same broker that the script never writes to, registered before or after the Uniswap market under test:
     # the per-bar refresh after on_bar must reach every market with a pending write, whatever the other markets did
@@ -277,8 +287,22 @@ def gen_run(rng, pool):
     return dict(ticks=ticks, in0=in0, in1=in1, liqs=liqs, plan=plan, dtype=dtype, probe=probe)
 
 
+def snapshot(market):
+    return ([(int(k.lower_tick), int(k.upper_tick), Fraction(p.liquidity), Fraction(p.pending_amount0), Fraction(p.pending_amount1), bool(p.transferred))
+             for k, p in market.positions.items()],
+            {t.name: Fraction(a.balance) for t, a in market.broker.assets.items()})
+
+
 def do_op(market, op, log):
     keys = list(market.positions.keys())
+    if op[0] == "add_empty":
+        before, outcome = snapshot(market), "ok"
+        try:
+            market.add_liquidity_by_tick(op[1], op[2], Decimal(op[3]), Decimal(op[4]))
+        except Exception as e:  # noqa: BLE001
+            outcome = type(e).__name__
+        log.append(("add_empty", outcome, snapshot(market) == before, (op[1], op[2])))
+        return
     try:
         if op[0] == "add":
             market.add_liquidity_by_tick(op[1], op[2], Decimal(op[3]), Decimal(op[4]))
@@ -439,6 +463,21 @@ def check_uncollected(ctx, pool, k, after, bal, rep, tagp):
         ctx.dev(got, exp)
 
 
+def check_oplog(ctx, oplog, rep):
+    """adds on an empty range (lower = upper after trimming): refused, by ZeroDivisionError out of get_liquidity as the model says, nothing changed"""
+    for o in oplog:
+        if o[0] != "add_empty":
+            continue
+        _, outcome, unchanged, (lo, up) = o
+        ctx.case(f"op:add_empty:{'same' if lo == up else 'trimmed'}:{outcome}:{'intact' if unchanged else 'changed'}")
+        if outcome == "ok":
+            ctx.violate("add.empty_range_accepted", f"add_liquidity_by_tick({lo}, {up}) on an empty range was accepted", rep)
+        elif not unchanged:
+            ctx.violate("add.empty_range_state_changed", f"add_liquidity_by_tick({lo}, {up}) raised {outcome} but positions or wallet changed", rep)
+        elif outcome != "ZeroDivisionError":
+            ctx.disagree(f"add_liquidity_by_tick({lo}, {up}) on an empty range: impl {outcome}, model ZeroDivisionError", rep)
+
+
 def check_run(ctx, pool, case, recs, run_err, rep, reqs, tagp):
     ticks, d0, d1 = case["ticks"], pool.token0.decimal, pool.token1.decimal
     fee = Fraction(pool.fee_rate)
@@ -462,6 +501,10 @@ def check_run(ctx, pool, case, recs, run_err, rep, reqs, tagp):
                 ctx.violate(f"update.raises.{err}.{case['dtype']}", f"update() raised {err} in bar {k} (tick {prev} -> {ticks[k]}, tick dtype {case['dtype']})", rep)
                 continue
             check_uncollected(ctx, pool, k, after, bal, rep, tagp)
+            for p in before["positions"]:
+                # the side conditions of the amount theorems, on the implementation's own state (invariant: C08_runOps_preserves_range)
+                if not int(p["lower"]) < int(p["upper"]) or int(p["liq"]) < 0:
+                    ctx.violate("position.ill_formed", f"bar {k}: update() is handed the position [{p['lower']},{p['upper']}) with liquidity {p['liq']}", rep)
             # several positions (theorems C08_shares_sum / C08_total_fee_le_volume): whatever the ranges, all positions together earn at most
             # volume x fee rate x (own total / (pool + own total)) per token, and each at most what it would earn alone, own / (pool + own)
             pool_liq = Fraction(case["liqs"][k])
@@ -514,6 +557,7 @@ def run_runs(ctx: Ctx):
             recs, run_err, oplog = exec_run(pool, case)
             for o in oplog:
                 ctx.count(f"op_{o[0]}_{o[1]}")
+            check_oplog(ctx, oplog, rep)
             check_run(ctx, pool, case, recs, run_err, rep, reqs, case["dtype"] + (":probe-" + case["probe"] if case.get("probe") else ""))
             ctx.impl_traces += 1
             # paired run: the same script plus unrelated same-bar operations; fees may differ only through the share's denominator
@@ -522,8 +566,9 @@ def run_runs(ctx: Ctx):
                 far = min(case["ticks"]) - 5000 * sp
                 far -= far % sp
                 extra = {k: [("add", far, far + 10 * sp, "0.1", "100"), ("sell", "0.01")] for k in range(1, len(case["ticks"]), 2)}
-                recs2, err2, _ = exec_run(pool, case, extra)
+                recs2, err2, oplog2 = exec_run(pool, case, extra)
                 rep2 = dict(rep, extra={str(k): v for k, v in extra.items()})
+                check_oplog(ctx, oplog2, rep2)
                 check_run(ctx, pool, case, recs2, err2, rep2, reqs, case["dtype"] + "+unrelated")
                 ua = [r for r in recs if r[0] == "update"]
                 ub = [r for r in recs2 if r[0] == "update"]
@@ -591,10 +636,11 @@ def replay(ctx: Ctx, case) -> bool:
         extra = {int(k): [tuple(o) for o in v] for k, v in case["extra"].items()} if "extra" in case else None
         logging.disable(logging.CRITICAL)
         try:
-            recs, run_err, _ = exec_run(pool, c, extra)
+            recs, run_err, oplog = exec_run(pool, c, extra)
         finally:
             logging.disable(logging.NOTSET)
         check_run(sub, pool, c, recs, run_err, {"pool": pj}, [], "replay")
+        check_oplog(sub, oplog, {"pool": pj})
     else:
         c = dict(case)
         for k in ("cur", "in0", "in1", "p0", "p1"):
